@@ -94,7 +94,7 @@ type Corpus struct {
 // BuildGoverter builds cmd/goverter of the repo's current working tree.
 func BuildGoverter(repo, scratch string) (string, error) {
 	out := filepath.Join(scratch, "goverter-bin")
-	cmd := exec.Command("go", "build", "-o", out, "./cmd/goverter")
+	cmd := exec.Command("go", "build", "-buildvcs=false", "-o", out, "./cmd/goverter")
 	cmd.Dir = repo
 	cmd.Env = append(os.Environ(), "GOFLAGS=-mod=mod", "GOPROXY=off", "GOSUMDB=off", "GOTOOLCHAIN=local")
 	if b, err := cmd.CombinedOutput(); err != nil {
